@@ -4,7 +4,8 @@
   a token list coming out of a tokenizer looks like.
 
   * `Token.Inside len`  : every span the token carries ends inside a source of `len` bytes
-  * `Token.Abuts`       : a non-empty prefix ends one byte (the colon) before its local name
+  * `Token.Abuts`       : a prefix is absent (empty, offset 0) or ends one byte (the colon) before
+                          its local name
   * `TagsOk`            : attributes occur only between an element start and its end token, and
                           `>` / `/>` end tokens occur only there
   * `NoStrayClose`      : no end tag at depth 0 (guaranteed by the tokenizer in document mode,
@@ -16,7 +17,10 @@ namespace XotModel
 
 def StrSpan.Inside (len : Nat) (s : StrSpan) : Prop := s.stop ≤ len
 
-def Abut (p l : StrSpan) : Prop := p.text = [] ∨ p.stop + 1 = l.start
+/-- An absent prefix (xmlparser's `"".into()`: empty, offset 0), or a prefix - empty for the
+    spelling `:local`, which xot refuses since /repo a5fafb0 - that ends one byte (the colon)
+    before its local name. -/
+def Abut (p l : StrSpan) : Prop := (p.text = [] ∧ p.start = 0) ∨ p.stop + 1 = l.start
 
 def Token.Inside (len : Nat) : Token → Prop
   | .declaration v e _ sp => v.Inside len ∧ (∀ x, e = some x → x.Inside len) ∧ sp.Inside len
